@@ -191,6 +191,15 @@ fn triage(case: &Case, errs: &[RustcError], bindings: &str, st: &mut Stats) {
     if rest.is_empty() { return; }
     // option / header-feature regions (single definition: Lean `C01Regions.classify`)
     let has = |f: &str| case.flags.iter().any(|x| x == f);
+    // documented limitation, not a finding: `Builder::disable_name_namespacing` — "this option may cause
+    // bindgen to generate duplicate names": anonymous types of different namespaces are all `_bindgen_ty_N`
+    let rest: Vec<&&RustcError> = if has("--disable-name-namespacing") && !has("--enable-cxx-namespaces") {
+        let n0 = rest.len();
+        let r: Vec<&&RustcError> = rest.into_iter().filter(|e| !(e.code == "E0428" && e.message.contains("`_bindgen_ty_"))).collect();
+        if r.len() < n0 { st.bump("documented_duplicate_anonymous_names", (n0 - r.len()) as u64); }
+        r
+    } else { rest };
+    if rest.is_empty() { return; }
     let newtype = case.flags.windows(2).any(|w| w[0] == "--default-alias-style" && w[1].starts_with("new_type"));
     let opts: String = [has("--with-derive-partialord"), has("--with-derive-ord"), has("--with-derive-partialeq"), has("--with-derive-eq"), has("--impl-debug"), has("--impl-partialeq"), has("--explicit-padding"), newtype, has("--no-derive-copy"), has("--c-naming"), case.flags.windows(2).any(|w| w[0] == "--default-enum-style" && (w[1].starts_with("newtype") || w[1] == "bitfield")) || case.flags.iter().any(|f| f.starts_with("--bitfield-enum") || f.starts_with("--newtype-enum") || f.starts_with("--newtype-global-enum")),
         case.flags.windows(2).any(|w| w[0] == "--default-enum-style" && w[1] == "moduleconsts") || case.flags.iter().any(|f| f.starts_with("--constified-enum-module")),
@@ -307,7 +316,7 @@ fn err_class(e: &RustcError) -> &'static str {
         "E0428" => "dupName",
         "E0133" => "e0133",
         "E0054" => "e0054",
-        "E0412" | "E0425" | "E0433" | "E0422" => "unresolved",
+        "E0412" | "E0425" | "E0433" | "E0422" | "E0432" => "unresolved",
         "E0423" => "e0423",
         "E0530" => "e0530",
         "E0588" => "e0588",
